@@ -7,3 +7,20 @@ OBLS.append(Obl('C19.parse_port.value/b8', ['C19', 'C03', 'C05', 'C04', 'C02'], 
                 bufn=8, unwind=10, defines=['STR_CAP=6', 'BUF_START=1'], includes=INC, globals=[('omitted', 'const unsigned int')],
                 enums=[('ada::scheme::type', x) for x in ('HTTP', 'NOT_SPECIAL', 'HTTPS', 'WS', 'FTP', 'WSS', 'FILE')], solver='cadical', timeout=900,
                 bound='port text <= 8 bytes', note='port state: digit run, <= 65535, default port never stored, trailing-content rule, consumed count'))
+
+# ---- the protocol setter's state machine (scheme state with a state override) against the record invariants
+ENUM_T = [('ada::scheme::type', x) for x in ('HTTP', 'NOT_SPECIAL', 'HTTPS', 'WS', 'FTP', 'WSS', 'FILE')]
+INC2 = ['spec/urlspec.h', 'spec/scan.h', 'spec/record.late.h']
+_cal = {'agg_set_scheme': 'skel/agg_set_scheme.record.spec', 'agg_set_scheme_from_view_with_colon': 'skel/agg_set_scheme_from_view_with_colon.record.spec',
+        'agg_clear_port': 'skel/agg_clear_port.record2.spec'}
+OBLS.append(Obl('C19.url_aggregator.parse_scheme_with_colon<true>.record', ['C19', 'C03', 'C05', 'C04', 'C02'], 'B(7)', 'auto', roots=['agg_parse_scheme_with_colon_1', 'agg_has_credentials'],
+                enforce='agg_parse_scheme_with_colon_1', replace=list(_cal), specs=dict(_cal, agg_parse_scheme_with_colon_1='skel/agg_parse_scheme_with_colon_1.record.spec'),
+                bufn=7, unwind=10, defines=['STR_CAP=7', 'BUF_START=1'], includes=INC2, globals=[('omitted', 'const unsigned int')], enums=ENUM_T, solver='cadical', timeout=1200,
+                object_bits=11, bound='scheme text <= 7 bytes incl. colon (covers every special scheme in any letter case)',
+                note='protocol setter: success => scheme type is that of the lower-cased text, special-ness kept, never file with credentials/port, never away from file with an '
+                     'empty host, the new scheme\'s default port is dropped, credentials kept; failure => object untouched (editors by contract)'))
+OBLS.append(Obl('C19.url.parse_scheme<true>.record', ['C19', 'C03', 'C05', 'C04', 'C02'], 'B(7)', 'auto', roots=['url_parse_scheme_1'],
+                enforce='url_parse_scheme_1', specs={'url_parse_scheme_1': 'url_parse_scheme_1.record.spec'},
+                bufn=7, unwind=10, defines=['STR_CAP=7', 'BUF_START=1'], includes=INC2, enums=ENUM_T, solver='cadical', timeout=1200,
+                object_bits=11, bound='scheme text <= 7 bytes (covers every special scheme in any letter case)',
+                note='ada::url protocol setter against the same record-level clauses as the aggregator twin; a non-special scheme is stored lower-cased'))
